@@ -7,41 +7,40 @@ expected to stop the program, or that the spec marks `solo`, gets a program of i
 compiler + VM, and compares the logged host-call arguments / error kind with the expectation.  A batch with
 any disagreement is re-run one operation per program, so that one failure never hides another operation."""
 import collections
-import concurrent.futures
 import os
 import shutil
-import time
 import vlib
 
 BATCH = 150
 
 
-def simulate_sharded(prop, mod, cfg, nshards, per, seed):
-    """several `tlc -simulate` runs in parallel (seed -> seed*100+k per shard): reproducible for a given seed"""
-    wd = os.path.join(vlib.WORK, prop)
+TLC_WORKERS = 2      # shared machine: at most 2 TLC workers, 3 GB heap, 4 harness jobs, one process at a time
+TLC_XMX = "3g"
+HARNESS_JOBS = 4
 
-    def one(k):
-        outdir = os.path.join(wd, "gen_shard%d" % k)
-        shutil.rmtree(outdir, ignore_errors=True)
-        os.makedirs(outdir)
-        res = vlib.tlc(mod, cfg=cfg, simulate=per, depth=3, seed=seed * 100 + k, env={"OUTDIR": outdir, "SHARD": str(k)},
-                       timeout=600, metadir=os.path.join(wd, "meta_shard%d" % k))
-        vlib.tlc_ok(res, "%s (random shard %d)" % (mod, k))
-        return vlib.load_case_files(outdir), res
 
-    t0 = time.time()
-    with concurrent.futures.ThreadPoolExecutor(max_workers=nshards) as ex:
-        parts = list(ex.map(one, range(nshards)))
-    cases = []
-    seen_meta = False
-    for cs, _ in parts:
-        for c in cs:
-            if c.get("id") == "meta":
-                if seen_meta:
-                    continue
-                seen_meta = True
-            cases.append(c)
-    return cases, time.time() - t0, sum(r.generated for _, r in parts)
+def tlc_enumerate(prop, mod, cfg, env=None, timeout=900):
+    """model-checking mode, one JSON file per state in OUTDIR"""
+    outdir = os.path.join(vlib.WORK, prop, "enum")
+    shutil.rmtree(outdir, ignore_errors=True)
+    os.makedirs(outdir)
+    e = {"OUTDIR": outdir, "SHARD": "g"}
+    e.update(env or {})
+    res = vlib.tlc(mod, cfg=cfg, env=e, timeout=timeout, workers=TLC_WORKERS, xmx=TLC_XMX,
+                   metadir=os.path.join(vlib.WORK, prop, "meta_enum"))
+    vlib.tlc_ok(res, mod + " (grid)")
+    return vlib.load_case_files(outdir), res
+
+
+def tlc_simulate(prop, mod, cfg, n, seed, timeout=900):
+    """`tlc -simulate num=n -seed seed`: one JSON file per behaviour in OUTDIR; reproducible for a given seed"""
+    outdir = os.path.join(vlib.WORK, prop, "gen")
+    shutil.rmtree(outdir, ignore_errors=True)
+    os.makedirs(outdir)
+    res = vlib.tlc(mod, cfg=cfg, simulate=n, depth=3, seed=seed, env={"OUTDIR": outdir, "SHARD": "0"}, timeout=timeout,
+                   workers=1, xmx=TLC_XMX, metadir=os.path.join(vlib.WORK, prop, "meta_gen"))
+    vlib.tlc_ok(res, mod + " (random)")
+    return vlib.load_case_files(outdir), res
 
 
 def load_pairs(cases, what):
@@ -61,24 +60,18 @@ def program(meta, pid, ops):
     for o in ops:
         host += o["expect"]["host"]
     last = ops[-1]["expect"]
-    exp = {"compile": "ok", "status": last["status"], "hostargs": host}
+    exp = {"compile": "ok", "status": last["status"], "host": host}
     if "errkind" in last:
         exp["errkind"] = last["errkind"]
     return {"id": pid, "files": {"main.abra": meta["header"] + "".join(o["stmts"] for o in ops)},
             "hostfns": meta["hostfns"], "expect": exp, "ops": [o["id"] for o in ops]}
 
 
-def project(o):
-    o = dict(o)
-    o["hostargs"] = [h["args"] for h in o.get("host", []) if h.get("f", "").startswith("report")]
-    return o
-
-
 def got_kind(exp, o):
     if o.get("compile") != "ok":
         return "compile-" + str(o.get("compile"))
     if o.get("status") == "done":
-        return "val" if exp["status"] != "done" or o["hostargs"] == exp["hostargs"] else "wrongval"
+        return "val" if exp["status"] != "done" or o.get("host") == exp["host"] else "wrongval"
     if o.get("status") == "error":
         return (o.get("err") or {}).get("kind", "error")
     return str(o.get("status"))
@@ -91,12 +84,11 @@ def run(prop, tier, seed):
     quick = tier == "quick"
 
     # ---- TLC: exhaustive grid, then seeded random pairs
-    gcases, gres = vlib.gen_enumerate(prop, mod, cfg=os.path.join(vlib.SPEC, "props", "C15.cfg" if quick else "C15_full.cfg"),
-                                      workers=4, timeout=600)
+    gcases, gres = tlc_enumerate(prop, mod, os.path.join(vlib.SPEC, "props", "C15.cfg" if quick else "C15_full.cfg"))
     meta, gpairs = load_pairs(gcases, "grid")
-    nshards, per = (2, 40) if quick else (6, 250)
-    rcases, rwall, rstates = simulate_sharded(prop, mod, os.path.join(vlib.SPEC, "props", "C15_random.cfg"), nshards, per, seed)
+    rcases, rres = tlc_simulate(prop, mod, os.path.join(vlib.SPEC, "props", "C15_random.cfg"), 30 if quick else 400, seed)
     _, rpairs = load_pairs(rcases, "random")
+    rwall, rstates = rres.wall, rres.generated
     ng = len(meta["grid"])
     if len(gpairs) != ng * ng:
         raise vlib.ToolError("grid enumeration incomplete: %d pair records for a grid of %d values" % (len(gpairs), ng))
@@ -116,11 +108,10 @@ def run(prop, tier, seed):
     for o in ops:
         if o["solo"]:
             progs.append(program(meta, "s." + o["id"], [o]))
-    obs, wall1 = vlib.run_harness(progs, wd, name="round1", timeout=60)
+    obs, wall1 = vlib.run_harness(progs, wd, name="round1", timeout=60, jobs=HARNESS_JOBS)
     verdict = {}          # op id -> (case, obs, mism) ; mism == [] means agreed
     redo = []
     for c, o in zip(progs, obs):
-        o = project(o)
         mism = vlib.compare(c["expect"], o)
         if len(c["ops"]) == 1:
             verdict[c["ops"][0]] = (c, o, mism)
@@ -133,10 +124,9 @@ def run(prop, tier, seed):
     wall2 = 0.0
     if redo:
         progs2 = [program(meta, "s." + i, [byid[i]]) for i in redo]
-        obs2, wall2 = vlib.run_harness(progs2, wd, name="round2", timeout=60)
+        obs2, wall2 = vlib.run_harness(progs2, wd, name="round2", timeout=60, jobs=HARNESS_JOBS)
         for c, o in zip(progs2, obs2):
-            o = project(o)
-            verdict[c["ops"][0]] = (c, o, vlib.compare(c["expect"], o))
+                verdict[c["ops"][0]] = (c, o, vlib.compare(c["expect"], o))
     if len(verdict) != len(ops):
         raise vlib.ToolError("lost operations: %d verdicts for %d operations" % (len(verdict), len(ops)))
 
@@ -156,7 +146,7 @@ def run(prop, tier, seed):
         rep.finding(key, dict(c, op=o["op"], form=o["form"]), ob, mism,
                     "int `%s` (form %s): expected %s, observed %s; program: %s" % (
                         o["op"], o["form"], o["expect"], {"status": ob.get("status"), "err": (ob.get("err") or {}).get("kind"),
-                                                          "host": ob.get("hostargs")}, o["stmts"].replace("\n", "; ")))
+                                                          "host": [h.get("args") for h in ob.get("host", [])]}, o["stmts"].replace("\n", "; ")))
     if diag:
         raise vlib.ToolError("%d generated programs were rejected by the compiler (generator out of sync), e.g. %s" % (
             diag, next(verdict[o["id"]][1].get("diag_text", "")[:300] for o in ops
